@@ -247,3 +247,8 @@ Theorem c07_check_stress_sound : forall aborted free_scans,
   check (mkStress aborted free_scans) = [] <-> aborted = false /\ free_scans = false.
 Proof. exact check_stress_sound. Qed.
 Print Assumptions c07_check_stress_sound.
+
+Theorem c07_check_race_sound : forall v crashed served,
+  check (mkRace v crashed served) = [] <-> crashed = false /\ served = true.
+Proof. exact check_race_sound. Qed.
+Print Assumptions c07_check_race_sound.
